@@ -239,14 +239,17 @@ def script_token(script):
 class Case:
     """one client + a sequence of calls"""
 
-    def __init__(self, prefix, dtags, dcid, script, calls, from_sink=False):
+    def __init__(self, prefix, dtags, dcid, script, calls, from_sink=False, nested=False):
         self.prefix, self.dtags, self.dcid, self.script, self.calls = prefix, dtags, dcid, script, calls
+        # nested: the client's error handler itself makes a failing quiet send on the same client (once, not from the
+        # nested invocation): that failure must reach the handler too
+        self.nested = nested and not from_sink
         # from_sink: the client is constructed with StatsdClient::from_sink instead of the builder (possible when
         # there are no defaults and no quiet form, which needs the handler, is used)
         self.from_sink = from_sink and not dtags and dcid is None and all(c[0] != "Q" for c in calls)
 
     def line(self, ft=None):
-        t = ["Y" if self.from_sink else "X", hx(self.prefix), dtags_token(self.dtags), "~" if self.dcid is None else hx(self.dcid),
+        t = ["Y" if self.from_sink else "XN" if self.nested and ft is None else "X", hx(self.prefix), dtags_token(self.dtags), "~" if self.dcid is None else hx(self.dcid),
              script_token(self.script), str(len(self.calls))]
         for (form, kind, ty, v, key, ops) in self.calls:
             t += [form, kind, arg_token(ty, v, ft), hx(key), ops_token(ops, ft)]
@@ -532,7 +535,7 @@ def gen_random(rng, n, mode):
             r = rng.random()
             script.append(None if r < 0.4 else ("a", rng.choice([0, 1, 2, 7, 10 ** 6, 2 ** 63])) if r < 0.55
                           else (rng.randint(0, 11), rng.randint(1, 99)))
-        out.append(Case(rand_prefix(rng, mode), dt, dc, script, calls, from_sink=rng.random() < 0.5))
+        out.append(Case(rand_prefix(rng, mode), dt, dc, script, calls, from_sink=rng.random() < 0.5, nested=rng.random() < 0.12))
     return out
 
 
@@ -553,6 +556,8 @@ def gen_scripts(rng):
                         k, ty, v = valid if ok else rejected
                         calls.append((f, k, ty, v, "k", [] if f == "P" else [("t", "a", "b")]))
                     out.append(Case("p", [], None, script, calls))
+                    if n <= 2 and "Q" in forms:
+                        out.append(Case("p", [], None, script, calls, nested=True))
     return out
 
 
@@ -633,8 +638,23 @@ def run_wire_check(prop, tier, seed):
     failures = []
     nontrivial = set()
     dist = {"calls": 0, "rejected": 0, "refused": 0, "forms": {"T": 0, "P": 0, "Q": 0}, "entry_points": {}}
-    for c, l, o in zip(cases, lines, impl):
+    impl_cmp = list(impl)
+    for ci, (c, l, o) in enumerate(zip(cases, lines, impl)):
         obs = o.split("|")
+        if c.nested:
+            # the handler's own failing quiet send: one more `einv` right after every failure the handler was given
+            for j, ob in enumerate(obs):
+                f = ob.split(",")
+                if len(f) != 3:
+                    continue
+                hl = [] if f[2] == "~" else f[2].split("+")
+                if len(hl) >= 2 and hl[-1] == "einv":
+                    hl = hl[:-1]
+                elif hl and prop == "C03":
+                    failures.append((len(l), l, o, "while handling %s the error handler made a failing quiet send on the same "
+                                     "client; that failure was not reported to the handler (it saw %s)" % (hl[0], f[2])))
+                obs[j] = ",".join([f[0], f[1], "+".join(hl) or "~"])
+            impl_cmp[ci] = "|".join(obs)
         script = list(c.script)
         for call, ob in zip(c.calls, obs):
             dist["calls"] += 1
@@ -670,7 +690,7 @@ def run_wire_check(prop, tier, seed):
         rep.violation_input("%s (%d failing calls; smallest case shown)" % (msg[:300], len(failures)),
                             {"bin": "wire", "case": l, "implementation": o, "clause": msg,
                              "how": "build/target/release/harness wire <file with the case line>"})
-    dis = [(len(l), l, i, m) for l, i, m in zip(lines + klines, impl + kimpl, model + kmodel) if i != m]
+    dis = [(len(l), l, i, m) for l, i, m in zip(lines + klines, impl_cmp + kimpl, model + kmodel) if i != m]
     if dis and not failures:
         dis.sort()
         _, l, i, m = dis[0]
